@@ -254,6 +254,8 @@ def build(run):
 
     from specs import finalize
     finalize.verify_finalize(run)
+    from specs import connect
+    connect.verify_connect(run)
     # ---- lemma one_inverter: the second resolution of the same shortcut name finds the block created by the first ------------------------
     b0 = Const('blocks0', ArraySort(StringSort(), OI)); s = Const('sname', StringSort()); r = Int('created')
     b1 = Store(b0, s, OI.Some(r))
